@@ -139,9 +139,16 @@ def fam_udp(rng, thorough):
             sizes.append(rng.choice([4000, 9001]))
         if mode in ('conn', 'boundconn'):
             p = rng.choice(cands)
-            ops.append(dict(op='connect', s=sid, addr=p[0], port=rng.choice([7, 9, 65535])))
+            cport = rng.choice([7, 9, 65535])
+            ops.append(dict(op='connect', s=sid, addr=p[0], port=cport))
             for n in sizes:
-                ops.append(dict(op='write', s=sid, n=n, seed=rng.randrange(1 << 24)))
+                w = dict(op='write', s=sid, n=n, seed=rng.randrange(1 << 24))
+                if rng.random() < 0.35:
+                    # a connected socket may still name a destination per datagram (here: the connected peer's address, another
+                    # port or the same one): the datagram goes where THIS write says
+                    q = p
+                    w['to'] = dict(addr=q[0], port=rng.choice([x for x in (7, 9, 65535, 8) if x != cport] + [cport]))
+                ops.append(w)
         else:
             for n in sizes:
                 p = rng.choice(cands)
